@@ -80,6 +80,7 @@ def mvec(model, t):
 
 
 _MLATS = {}     # model name -> {"lats": [...], "calls": [...]} for the current multi-index case
+_MREC = None    # {"n": calls so far, "ev": [...]}: begin/finish records of every decorated _get_embeddings call of a multi-index case
 _MSTEPS = None  # [n] event-wait counter while a multi-index case runs (busy-loop guard without the recorder)
 
 
@@ -215,9 +216,18 @@ def _setup():
         async def _get_embeddings(self, texts):
             if _REC is not None:
                 _REC.ge_in(texts)
+            mrec, cid = _MREC, None
+            if mrec is not None:
+                # multi-index cases: the wrapper's first atomic section starts right here (no suspension before the cache
+                # look-ups) and its second one ends with the return: the order of these records is the order of the sections
+                cid = mrec["n"]
+                mrec["n"] += 1
+                mrec["ev"].append(["begin", cid, getattr(self, "_verif_spec", -1), list(texts)])
             r = await super()._get_embeddings(texts)
             if _REC is not None:
                 _REC.ge_out(r)
+            if mrec is not None:
+                mrec["ev"].append(["finish", cid, [venc(v) for v in r] if isinstance(r, list) else None])
             return r
 
         async def _batch_get_embeddings(self, text):
@@ -724,7 +734,7 @@ def _m_ops(case):
 
 
 def _run_multi(case, tmpdir):
-    global _MSTEPS
+    global _MSTEPS, _MREC
     from nemoguardrails.embeddings.cache import EmbeddingsCache
     from nemoguardrails.embeddings.index import IndexItem
     from nemoguardrails.rails.llm.config import EmbeddingsCacheConfig
@@ -748,11 +758,14 @@ def _run_multi(case, tmpdir):
 
     def make(i):
         sp = specs[i]
-        return TIndex(embedding_model=sp["model"], embedding_engine="verif_stub2", use_batching=sp.get("batching", False),
-                      max_batch_size=sp.get("max", 3), max_batch_hold=sp.get("hold", 1.0), cache_config=_m_cache_config(sp, tmpdir))
+        ix = TIndex(embedding_model=sp["model"], embedding_engine="verif_stub2", use_batching=sp.get("batching", False),
+                    max_batch_size=sp.get("max", 3), max_batch_hold=sp.get("hold", 1.0), cache_config=_m_cache_config(sp, tmpdir))
+        ix._verif_spec = i
+        return ix
 
     loop = VLoop()
     _MSTEPS = [0]
+    _MREC = {"n": 0, "ev": []}
     try:
         idxs = [make(i) for i in range(case.get("nslots", len(specs)))]
         cfgs = [EmbeddingsCacheConfig(**_m_cache_config(sp, tmpdir)) for sp in specs]
@@ -828,6 +841,8 @@ def _run_multi(case, tmpdir):
 
         obs["hung"] = loop.run_until_complete(main())
         obs["ops"] = [results.get(f"op{k}", {"status": "hung"}) for k, _, _, _, _ in _m_ops(case)]
+        obs["calls"] = _MREC["ev"]
+        _MREC = None
         obs["model_calls"] = {m: st["calls"] for m, st in _MLATS.items()}
         obs["leftover"] = [{"queue": len(ix._req_queue), "results": len(ix._req_results)} for ix in idxs]
         idxs = None
@@ -867,6 +882,7 @@ def _run_multi(case, tmpdir):
         return obs
     finally:
         _MSTEPS = None
+        _MREC = None
         try:
             loop.close()
         except Exception:  # noqa
@@ -965,19 +981,34 @@ def _m_signature(case, obs, msg):
     return None
 
 
+def _m_labels(obs):
+    """the recorded begin/finish sequence as labels of Embed.mstep (`finish k`: k-th call still open)"""
+    open_, labels, finished = [], [], []
+    for e in obs.get("calls", []):
+        if e[0] == "begin":
+            open_.append(e[1])
+            labels.append(["begin", e[2], e[3]])
+        else:
+            labels.append(["finish", open_.index(e[1])])
+            open_.remove(e[1])
+            finished.append(e[2])
+    return labels, finished
+
+
 def _m_model_requests(case, obs):
-    if not _m_all_seq(case):
-        return []
     specs = case["indexes"]
     ixs = [{"cfg": {"enabled": sp["cache"]["store"] != "off", "persistent": _m_persistent(sp)}, "loc": _m_loc(sp, i),
             "keys": obs["keys"][i], "vecs": obs["vecs"][i]} for i, sp in enumerate(specs)]
+    reqs = [{"m": "C19.mreplay", "indexes": ixs, "labels": _m_labels(obs)[0]}]
+    if not _m_all_seq(case):
+        return reqs
     ops = []
     for k, pi, ph, op, sx in _m_ops(case):
         if op["op"] == "recreate" or obs["ops"][k].get("skipped"):
             ops.append([sx, None])
         else:
             ops.append([sx, op["texts"] if "texts" in op else [op["text"]]])
-    return [{"m": "C19.multi", "indexes": ixs, "ops": ops}]
+    return reqs + [{"m": "C19.multi", "indexes": ixs, "ops": ops}]
 
 
 def _m_compare(case, obs, mouts):
@@ -986,7 +1017,26 @@ def _m_compare(case, obs, mouts):
                 f"modelled {_m_declared_shares(case)} (in_memory = new empty store per call, filesystem = one store per cache_dir)")
     if not mouts:
         return None
-    m = mouts[0]
+    # (1) every decorated _get_embeddings call of every index (incl. the ones _run_batch makes), in the recorded order of the
+    # wrapper's atomic sections, replayed in Embed.mstep
+    r = mouts[0]
+    labels, finished = _m_labels(obs)
+    if r["failed_at"] is not None:
+        return f"recorded section #{r['failed_at']} {labels[r['failed_at']]} is not enabled in Embed.mstep"
+    if len(r["returned"]) != len(finished):
+        return f"model returned {len(r['returned'])} calls, implementation {len(finished)}"
+    for k, (mv, iv) in enumerate(zip(r["returned"], finished)):
+        if mv[1] != iv:
+            return f"_get_embeddings call finishing #{k} (index {mv[0]}): impl returned {iv}, model {mv[1]}"
+    if obs.get("hung") == 0 and all(o["status"] == "ok" for o in obs["ops"]):
+        ms = {str(l): sorted(st) for l, st in r["stores"]}
+        for l, st in obs["stores"].items():
+            if st != ms.get(l, []):
+                return f"final store at location {l} differs: impl {st} model (mstep) {ms.get(l, [])}"
+    if len(mouts) < 2:
+        return None
+    # (2) all-sequential cases additionally as whole calls (Embed.multiCalls)
+    m = mouts[1]
     for k, (o, mr) in enumerate(zip(obs["ops"], m["results"])):
         if mr is None:
             continue
